@@ -284,7 +284,7 @@ func (st *State) applyContract(fr *Frame, in ssa.CallInstruction, ct *Contract, 
 	if len(ct.Params) != len(args) {
 		st.unsupported("contract %s binds %d parameters, call has %d", ct.Key(), len(ct.Params), len(args))
 	}
-	env := &Env{vars: map[string]envVar{}, old: st.snapshot(), pkg: ct.Pkg}
+	env := &Env{vars: map[string]envVar{}, old: st.snapshot(), pkg: ct.Pkg, allocBound: st.define("callwm", st.watermark())}
 	var ptypes []types.Type
 	if callee != nil {
 		for _, p := range callee.Params {
@@ -477,7 +477,8 @@ func (st *State) appendBuiltin(fr *Frame, c *ssa.CallCommon, args []SVal) SVal {
 			arr := st.heapGet(st.heap, key, srt, l.IsRef)
 			inner := st.fresh("app", ArrS(SInt, l.Sort))
 			i := Const("i!q", SInt)
-			st.assume(Forall([]*Term{i}, Implies(And(Ge(i, IntLit(0)), Lt(i, s.Len)), Eq(Select(inner, i), Select(Select(arr, s.Base), Add(s.Off, i)))), Select(inner, i)))
+			oldEl := Select(st.innerArray(arr, s.Base), Add(s.Off, i))
+			st.assume(ForallAlt([]*Term{i}, Implies(And(Ge(i, IntLit(0)), Lt(i, s.Len)), Eq(Select(inner, i), oldEl)), [][]*Term{{Select(inner, i)}, {oldEl}}))
 			if lit, ok := add.Len.Lit.(interface{ Int64() int64 }); ok && lit.Int64() <= 4 {
 				for j := int64(0); j < lit.Int64(); j++ {
 					st.assume(Eq(Select(inner, Add(s.Len, IntLit(j))), Select(Select(arr, add.Base), Add(add.Off, IntLit(j)))))
@@ -488,7 +489,7 @@ func (st *State) appendBuiltin(fr *Frame, c *ssa.CallCommon, args []SVal) SVal {
 			if l.IsRef && st.e.refAxioms {
 				st.assume(Forall([]*Term{i}, And(Ge(Select(inner, i), IntLit(0)), Lt(Select(inner, i), st.watermark())), Select(inner, i)))
 			}
-			st.heapSet(key, Store(arr, nb, inner))
+			st.heapSetInner(key, arr, nb, inner)
 		}
 		return res
 	case *Term:
